@@ -49,35 +49,48 @@ def _classes():
         return _CLASSES
     from bigtree.node.binarynode import BinaryNode
 
+    def touch(*objs):
+        """read every public link getter of the nodes involved (any state cached on read would be exercised)"""
+        for o in objs:
+            for x in (o if isinstance(o, (list, tuple)) else [o]):
+                if isinstance(x, BinaryNode):
+                    for attr in ("children", "left", "right", "parent"):
+                        try:
+                            getattr(x, attr)
+                        except Exception:
+                            pass
+
     class Faults:
         queue = []      # one entry per setter call: None | "pre" | "post"
         pending = False
 
         @classmethod
-        def pre(cls):
+        def pre(cls, *involved):
+            touch(*involved)
             cur = cls.queue.pop(0) if cls.queue else None
             cls.pending = cur == "post"
             if cur == "pre":
                 raise HookFault("pre")
 
         @classmethod
-        def post(cls):
+        def post(cls, *involved):
+            touch(*involved)
             if cls.pending:
                 cls.pending = False
                 raise HookFault("post")
 
     class FBin(BinaryNode):
         def _BinaryNode__pre_assign_parent(self, new_parent):
-            Faults.pre()
+            Faults.pre(self, self.parent, new_parent)
 
         def _BinaryNode__post_assign_parent(self, new_parent):
-            Faults.post()
+            Faults.post(self, self.parent, new_parent)
 
         def _BinaryNode__pre_assign_children(self, new_children):
-            Faults.pre()
+            Faults.pre(self, list(self.children), list(new_children), [c.parent for c in new_children if isinstance(c, BinaryNode)])
 
         def _BinaryNode__post_assign_children(self, new_children):
-            Faults.post()
+            Faults.post(self, list(self.children), list(new_children), [c.parent for c in new_children if isinstance(c, BinaryNode)])
 
     _CLASSES.update(Faults=Faults, FBin=FBin)
     return _CLASSES
@@ -87,12 +100,28 @@ class Junk:
     """a Python object that is not a node"""
 
 
+# non-node arguments: ["Junk"] / ["Junk", "obj"] = a truthy object; the others are FALSY values that are
+# neither None nor a node.  The model treats every kind alike (AJunk: TypeError with the checks on).
+JUNK_KINDS = {"obj": Junk, "0": lambda: 0, "str": lambda: "", "False": lambda: False, "0.0": lambda: 0.0,
+              "tuple": lambda: (), "list": lambda: [], "dict": lambda: {}}
+FALSY_JUNK = ["0", "str", "False", "0.0", "tuple", "list", "dict"]
+HASHABLE_JUNK = ["obj", "0", "str", "False", "0.0", "tuple"]
+
+
 def _arg(nodes, a):
     if a[0] == "N":
         return nodes[a[1]]
     if a[0] == "None":
         return None
-    return Junk()
+    return JUNK_KINDS[a[1] if len(a) > 1 else "obj"]()
+
+
+def _junk(rng, hashable=False, truthy=False):
+    if truthy:
+        return ["Junk", "obj"]
+    pool = HASHABLE_JUNK if hashable else ["obj"] + FALSY_JUNK
+    # half of the junk is falsy
+    return ["Junk", "obj"] if rng.random() < 0.4 else ["Junk", rng.choice([k for k in pool if k != "obj"])]
 
 
 def _container(kind, items):
@@ -512,7 +541,7 @@ def gen_case(rng, prop, fault_rate=0.1, invalid_rate=0.15, nmin=3, nmax=7, maxop
             elif ch < 0.40:
                 args = args + [["None"], ["None"]]
             elif ch < 0.52 and args:
-                args[rng.randrange(len(args))] = ["Junk"]
+                args[rng.randrange(len(args))] = _junk(rng)
             elif ch < 0.64 and args:
                 args[rng.randrange(len(args))] = ["N", p]
             elif ch < 0.78 and args and sh.anc(p):
@@ -526,6 +555,8 @@ def gen_case(rng, prop, fault_rate=0.1, invalid_rate=0.15, nmin=3, nmax=7, maxop
             else:
                 cont = "set"
                 args = args[:1] if rng.random() < 0.7 else []
+                if args and rng.random() < 0.3:
+                    args = [_junk(rng, hashable=True)]
         return cont, args
 
     weights = {
@@ -556,7 +587,7 @@ def gen_case(rng, prop, fault_rate=0.1, invalid_rate=0.15, nmin=3, nmax=7, maxop
             if invalid:
                 ch = rng.random()
                 if ch < 0.2:
-                    a = ["Junk"]
+                    a = _junk(rng)
                 elif ch < 0.35:
                     a = ["N", c]
                 elif ch < 0.6:
@@ -586,9 +617,9 @@ def gen_case(rng, prop, fault_rate=0.1, invalid_rate=0.15, nmin=3, nmax=7, maxop
             if invalid:
                 ch = rng.random()
                 other = sh.kids[p][1 if side == "SetLeft" else 0]
-                if ch < 0.2:
-                    a = ["Junk"]
-                elif ch < 0.4:
+                if ch < 0.3:
+                    a = _junk(rng)
+                elif ch < 0.45:
                     a = ["N", p]
                 elif ch < 0.7 and sh.anc(p):
                     a = ["N", rng.choice(sh.anc(p))]
@@ -651,8 +682,23 @@ def gen_case(rng, prop, fault_rate=0.1, invalid_rate=0.15, nmin=3, nmax=7, maxop
                 ch = [pick(), pick()]
             elif m < 0.42 and invalid:
                 ch = [l]
-            if invalid and rng.random() < 0.15:
-                l = ["Junk"]
+            if invalid and rng.random() < 0.35:
+                # a non-node in left / right / children / parent of the constructor.  The constructor compares a
+                # *truthy* left/right with children[i] before any setter runs, so with explicit children only
+                # the truthy kind is used for left/right (the model's AJunk is truthy there).
+                where = rng.choice(["l", "r", "ch", "par"])
+                if where == "l":
+                    l = _junk(rng, truthy=bool(ch))
+                elif where == "r":
+                    r = _junk(rng, truthy=bool(ch))
+                elif where == "par":
+                    par = _junk(rng)
+                else:
+                    if not ch:
+                        ch = [l, r]
+                        l = r = ["None"]
+                    ch = list(ch)
+                    ch[rng.randrange(len(ch))] = _junk(rng)
             op = ["New", l, r, par, ch, fault(), fault()]
         if only_valid and not sh.copy().apply(op):
             continue
@@ -689,7 +735,7 @@ def reachable_states(n, cap=4000):
 
 def op_universe(n, prop):
     vals = [["None"]] + [["N", i] for i in range(n)]
-    jvals = vals + [["Junk"]]
+    jvals = vals + [["Junk", "obj"], ["Junk", "0"]]
     faults = ["none"] if prop == "C20" else ["none", "pre", "post"]
     use = vals if prop == "C20" else jvals
     ops = []
@@ -769,6 +815,16 @@ def corpus(prop):
                                  ["SetParent", 1, N(0), "none", "set"]],
     }
     if prop != "C20":
+        # falsy non-node arguments (0, "", False, 0.0, (), [], {}) must be refused like any other non-node
+        J = lambda k: ["Junk", k]   # noqa: E731
+        hs["falsy-junk-right-left"] = [["SetLeft", 0, N(1), "none"], ["SetRight", 0, J("0"), "none"], ["SetLeft", 0, J("str"), "none"],
+                                       ["SetRight", 0, J("False"), "none"], ["SetParent", 2, N(0), "none", "set"], ["DelChildren", 0]]
+        hs["falsy-junk-children"] = [["SetChildren", 0, "list", [N(1), J("0.0")], "none"], ["SetChildren", 0, "tuple", [J("tuple"), N(2)], "none"],
+                                     ["SetChildren", 0, "list", [J("list"), J("dict")], "post"], ["SetChildren", 0, "list", [N(1), J("obj")], "none"],
+                                     ["Sort", 0, [0, 1, 2, 3, 4], False], ["SetParent", 3, N(0), "none", "append"]]
+        hs["falsy-junk-ctor"] = [["New", J("0"), NO, NO, [], "none", "none"], ["New", NO, J("str"), N(0), [], "none", "none"],
+                                 ["New", NO, NO, NO, [N(1), J("False")], "none", "none"], ["New", NO, NO, J("0"), [], "none", "none"],
+                                 ["New", J("obj"), NO, NO, [N(1), NO], "none", "none"]]
         hs["rollback-two-orphans"] = [["SetChildren", 0, "list", [N(1), N(2)], "post"], ["SetChildren", 3, "list", [N(2), N(1)], "none"],
                                       ["SetChildren", 0, "list", [N(2), N(1)], "post"]]
         hs["full-inside-try"] = [["SetChildren", 0, "list", [N(1), N(2)], "none"], ["SetLeft", 4, N(3), "none"],
@@ -854,7 +910,7 @@ def sample(prop, case, obs):
 def rule(prop):
     return ("random operation histories (<= 14 ops, 3-7 initial BinaryNode objects plus up to 3 constructor calls) over a "
             "BinaryNode subclass with fault-injecting hooks; strata: op mix (mixed/slots/parent/full/alloc) incl. None slots, tuples, "
-            "wrong lengths, non-nodes, loops, duplicates, full parents; every run: every state reachable on 2 and 3 nodes x every operation "
+            "wrong lengths, non-nodes (a truthy object and the falsy values 0, '', False, 0.0, (), [], {}), loops, duplicates, full parents; every run: every state reachable on 2 and 3 nodes x every operation "
             "(thorough: also 4 nodes); non-trivial = >=2 accepted ops and >=1 linked node (C02: >=1 accepted and >=1 rejected/failing op); "
             "C20: no faults / no invalid ops, each case additionally run in a child interpreter with BIGTREE_CONF_ASSERTIONS=\"\"; "
             "distinct by canonical JSON hash")
